@@ -388,6 +388,18 @@ class Interp(object):
         self.repo_root = repo_root
         self.modules = {}
         self.externals = {}       # dotted external name -> python callable(interp, *args, **kw) | value
+        # itertools: pure combinatorics over the (concrete) structure of their arguments; results are materialised lists
+        import itertools as _it
+        _lst = lambda interp, x: list(interp.iterate(x))
+        self.externals.update({
+            "itertools.chain": lambda interp, *seqs: [x for s_ in seqs for x in _lst(interp, s_)],
+            "itertools.product": lambda interp, *seqs, repeat=1: [tuple(c) for c in _it.product(*[_lst(interp, s_) for s_ in seqs], repeat=int(repeat))],
+            "itertools.combinations": lambda interp, seq, r: [tuple(c) for c in _it.combinations(_lst(interp, seq), int(r))],
+            "itertools.combinations_with_replacement": lambda interp, seq, r: [tuple(c) for c in _it.combinations_with_replacement(_lst(interp, seq), int(r))],
+            "itertools.permutations": lambda interp, seq, r=None: [tuple(c) for c in _it.permutations(_lst(interp, seq), None if r is None else int(r))],
+            "itertools.zip_longest": lambda interp, *seqs, fillvalue=None: [tuple(c) for c in _it.zip_longest(*[_lst(interp, s_) for s_ in seqs], fillvalue=fillvalue)],
+            "itertools.islice": lambda interp, seq, *a: list(_it.islice(_lst(interp, seq), *[None if x is None else int(x) for x in a])),
+        })
         self.model_paths = {}     # external module name -> path of a contract model source (assumed contract, interpreted like code)
         self.overrides = {}       # qualname -> callable(interp, args, kwargs) used instead of the body
         self.max_paths = max_paths
